@@ -302,6 +302,8 @@ IMMUTABLE_METHODS = {"join", "format", "lower", "upper", "strip", "lstrip", "rst
                      "encode", "decode", "isoformat", "strftime", "hexdigest", "digest", "group", "startswith", "endswith", "total_seconds", "timestamp", "date", "time", "toordinal", "count", "index", "find"}
 IMMUTABLE_EXTERNAL = ("datetime.", "re.compile", "posixpath.", "os.path.", "os.fspath", "math.", "operator.index", "fractions.", "decimal.", "hashlib.", "numpy.datetime64", "numpy.timedelta64", "numpy.dtype",
                       "numpy.int", "numpy.uint", "numpy.float", "dateutil.parser.")
+TOOLZ_CONTAINERS = {"merge", "merge_with", "valmap", "keymap", "itemmap", "valfilter", "keyfilter", "itemfilter", "assoc", "dissoc", "assoc_in", "update_in", "groupby", "frequencies", "countby",
+                    "partition_all", "concat", "concatv", "unique", "interleave", "sliding_window", "partition", "cons", "remove", "take", "drop", "pluck"}
 MUTABLE_CTORS = {"dict", "list", "set", "bytearray", "OrderedDict", "defaultdict", "Counter", "deque", "ChainMap"}
 MUTABLE_METHODS = {"copy", "split", "rsplit", "splitlines", "groupdict", "items", "keys", "values", "tolist", "astype", "reshape"}
 PART_METHODS = {"partition", "rpartition", "split", "rsplit", "groups", "splitlines"}
@@ -366,6 +368,8 @@ def _result_kind(repo, g, fi, e, depth=0, seen=None):
                     return "data"
                 if r.fq.startswith(IMMUTABLE_EXTERNAL):
                     return "immutable"
+                if r.fq.split(".")[0] in ("tlz", "toolz", "cytoolz") and nm in TOOLZ_CONTAINERS:
+                    return "data"  # a new dict / list built by toolz
                 return None
             if r.kind == "class":
                 return "data" if r.node.name in ("Group", "Variable", "Array") else None
